@@ -7,6 +7,8 @@
 (*   bin  : ordered unit pair x {add, subtract, max/min, comparisons} x form  *)
 (*   red  : unit x {diff, ediff1d, ptp, gradient}                             *)
 (*   ref  : unit x multiplicative/power operation x partner x form            *)
+(*   chain: source unit x 2-3 conversion routes / arithmetic on the SAME      *)
+(*          source object x shape x dtype                                     *)
 EXTENDS Temperature
 CONSTANTS ArithP,     \* prefixes of the arithmetic families (decimal exponents within 6 of each other)
           ConvSrcP,   \* prefixes of conversion sources
@@ -15,13 +17,17 @@ CONSTANTS ArithP,     \* prefixes of the arithmetic families (decimal exponents 
           Shapes,     \* subset of {"arr", "sc"}
           BinForms,   \* subset of {"operator", "ufunc", "inplace", "out"}
           BinOpSet,   \* subset of BinOps
-          ConvVias    \* subset of {"in_units", "to", "convert_to_units", "to_value", "in_base"}
+          ConvVias,   \* subset of {"in_units", "to", "convert_to_units", "to_value", "in_base"}
+          ChainP,     \* prefixes of chain sources (|decimal exponent| <= 3)
+          ChainTgt,   \* names of explicit chain targets: subset of UnitsOver({"", "m", "k"})
+          ChainDT,    \* subset of {"f8", "f4"}
+          ChainLen3   \* BOOLEAN: also chains with a third step
 VARIABLE c
 Blank == U("", "")
 Mk(fam, op, form, u0, u1, rs, shape, part) ==
-  LET c0 == [fam |-> fam, op |-> op, form |-> form, u0 |-> u0, u1 |-> u1, rs |-> rs, shape |-> shape, part |-> part]
+  LET c0 == [fam |-> fam, op |-> op, form |-> form, u0 |-> u0, u1 |-> u1, rs |-> rs, shape |-> shape, part |-> part, chain |-> <<>>, dt |-> "f8"]
       t == Outcome(c0) IN
-  [fam |-> fam, op |-> op, form |-> form, u0 |-> u0, u1 |-> u1, rs |-> rs, shape |-> shape, part |-> part,
+  [fam |-> fam, op |-> op, form |-> form, u0 |-> u0, u1 |-> u1, rs |-> rs, shape |-> shape, part |-> part, chain |-> <<>>, dt |-> "f8",
    x0 |-> X(c0, 0), x1 |-> X(c0, 1), t |-> t, cands |-> Cands(c0), mp |-> P(c0, t)]
 
 \* conversions: a source with a different zero point needs its own decimal exponent explicitly, keep it within +-3
@@ -48,7 +54,22 @@ RefCase == \E u \in UnitsOver(ArithP), op \in RefBin \cup RefUn, sh \in Shapes :
              \E f \in RefForms(op), part \in (IF op \in RefBin THEN RefParts(op) ELSE {""}) :
               /\ (f \in {"inplace", "out"} \/ op \in {"dot", "matmul", "prod_reduce", "prod", "prodmethod"} => sh = "arr")
               /\ c' = Mk("ref", op, f, u, u, 1, sh, part)
+\* chains: every conversion route first, then any route (or an in-place edit of the first result), optionally a third
+MkChain(u, ch, rs, shape, dt) ==
+  LET c0 == [fam |-> "chain", op |-> "chain", form |-> "method", u0 |-> u, u1 |-> Blank, rs |-> rs, shape |-> shape, part |-> "", chain |-> ch, dt |-> dt]
+      t == Outcome(c0) IN
+  [fam |-> "chain", op |-> "chain", form |-> "method", u0 |-> u, u1 |-> Blank, rs |-> rs, shape |-> shape, part |-> "", chain |-> ch, dt |-> dt,
+   x0 |-> X(c0, 0), x1 |-> X(c0, 1), t |-> t, cands |-> Cands(c0), mp |-> P(c0, [steps |-> [i \in DOMAIN ch |-> t.steps[i] @@ [srcunit |-> u, srcv |-> X(c0, 0)]]])]
+ChainTargets == {u \in UnitsOver({"", "m", "k"}) : UName(u) \in ChainTgt}
+ConvSteps == {[r |-> r, v |-> v] : r \in ConvRoutesV, v \in ChainTargets} \cup {[r |-> r, v |-> Blank] : r \in ConvRoutesK \cup ConvRoutesR}
+AddSteps == {[r |-> "add_diff", v |-> U("delta_degC", "")], [r |-> "add_diff", v |-> U("delta_degF", "")]}
+PrevSteps == {[r |-> "prev_iadd", v |-> Blank]}
+ThirdSteps == {[r |-> "to", v |-> U("degF", "")], [r |-> "in_mks", v |-> Blank], [r |-> "add_diff", v |-> U("delta_degF", "")]}
+ChainCase == \E u \in UnitsOver(ChainP), s1 \in ConvSteps, s2 \in ConvSteps \cup AddSteps \cup PrevSteps, sh \in Shapes, dt \in ChainDT, rs \in ReadSets :
+               /\ (dt = "f4" => sh = "arr")
+               /\ \/ c' = MkChain(u, <<s1, s2>>, rs, sh, dt)
+                  \/ (ChainLen3 /\ s1.v = Blank /\ \E s3 \in ThirdSteps : c' = MkChain(u, <<s1, s2, s3>>, rs, sh, dt))   \* third step after a base-unit route first
 Init == c = <<>>
-Next == c = <<>> /\ (ConvCase \/ BinCase \/ RedCase \/ RefCase)
+Next == c = <<>> /\ (ConvCase \/ BinCase \/ RedCase \/ RefCase \/ ChainCase)
 Export == c # <<>> => PrintT(ToJson([tag |-> "CASE", c |-> c]))
 =============================================================================
